@@ -88,6 +88,7 @@ def run(chk, repo):
 
     from .common_rules import stateless_constructs
     chk.attempt(stateless_constructs, chk, repo, "C05-F8")
+    chk.attempt(stream_movers, chk, repo, L)
     chk.attempt(reader_classes, chk, repo, L)
     from .common_rules import declared_multiplicities
     usable = declared_multiplicities(chk, L, "C05-F9", ("leader", "volume", "trailer"))
@@ -544,6 +545,50 @@ def _enumerate(chk, L):
     chk.obligations.append({"rule": "C05-ENUM", "where": "layout", "what": f"{cases} concrete (record, N, L) cases substituted; {len(bad)} failed", "holds": not bad})
     chk.extra["exhaustive"] = True
     chk.extra["enumerated_cases"] = cases
+
+
+def stream_movers(chk, repo, L):
+    """C05-F11: classes of the package that move the stream themselves (derived from construct.Construct / Subconstruct, a ``_parse``
+    that seeks or hands the stream to another construct): on every path through ``_parse`` that returns, the stream is left the same
+    number of bytes behind where it was found.  A path that forgets to seek back shifts every field after it"""
+    from ..layout import moves_stream_itself, parse_paths
+    chk.rule("C05-F11", "a construct class that moves the stream itself leaves it at the same place on every path that returns", 0)
+    ev = L.ev
+
+    def is_construct_class(mod, cls, depth=0):
+        for b in cls.bases:
+            try:
+                r = repo.resolve_expr(mod, b)
+            except Exception:
+                continue
+            if r.kind == "external" and r.fq.rsplit(".", 1)[-1] in ("Construct", "Subconstruct") and r.fq.startswith("construct"):
+                return True
+            if r.kind == "class" and depth < 5 and is_construct_class(r.mod, r.node, depth + 1):
+                return True
+        return False
+    n = 0
+    for mod in repo.modules.values():
+        if ".tests" in mod.name or mod.name.endswith(".tests"):
+            continue
+        for cls in [x for x in mod.tree.body if isinstance(x, ast.ClassDef)]:
+            parse = next((x for x in cls.body if isinstance(x, ast.FunctionDef) and x.name == "_parse"), None)
+            if parse is None or not is_construct_class(mod, cls) or not moves_stream_itself(parse):
+                continue
+            n += 1
+            where = f"{mod.relpath}:{cls.name}._parse"
+            exits = [e for e in parse_paths(ev, mod, cls) if e[0] == "return"]
+            decided = [e for e in exits if e[2] is not None]
+            moves = sorted({e[2] for e in decided})
+            if len(moves) > 1:
+                by = {m: next(e[1] for e in decided if e[2] == m) for m in moves}
+                chk.fail("C05-F11", where, "the stream is left " + ", ".join(f"{m:+d} bytes from where it was found when _parse returns at line {ln}" for m, ln in by.items()) +
+                         ": which bytes the following fields are decoded from depends on the path taken", key=f"stream-mover:{cls.name}:paths-disagree")
+                continue
+            if len(decided) < len(exits):
+                ln = next(e[1] for e in exits if e[2] is None)
+                raise AnalysisError(f"{where}: where the stream stands when _parse returns at line {ln} is not decided")
+            chk.ok("C05-F11", where, f"{len(exits)} returning paths, each leaves the stream {moves[0] if moves else 0:+d} bytes from where it was found")
+    chk.count("stream_moving_classes", n)
 
 
 def reader_classes(chk, repo, L):
